@@ -535,6 +535,30 @@ func MonitorC16(pats []xfer.NamedTP) xfer.Monitor {
 					v.Add("tcp-fragment/unconfigured", "%s direction of connection %d: fragmentation is off but %d segments were written in %d writes", t.Dir, t.ConnID, total, len(t.Writes))
 					return
 				}
+				// every session segment of a side that enables fragmentation is written in >= 2 pieces
+				// (a piece is at most half of the segment); writes are matched to segments by stream offset
+				if frag {
+					wi, wend := 0, 0
+					for _, r := range d.Recs {
+						if r.Conn != t.ConnID || r.C2S != (t.Dir == "c2s") || r.Dgram != nil {
+							continue
+						}
+						end := int(r.Off) + r.Seg.WireLen
+						n := 0
+						for wi < len(t.Writes) && wend < end {
+							wend += t.Writes[wi]
+							wi++
+							n++
+						}
+						if wend != end {
+							break // a write crosses a segment boundary: no per-segment statement is made
+						}
+						if r.Seg.IsSession() && r.Seg.WireLen >= 16 && n < 2 {
+							v.Add("tcp-fragment/not-applied", "%s direction of connection %d: fragmentation is enabled but the session segment at offset %d (%d bytes, %v) was written in one piece", t.Dir, t.ConnID, r.Off, r.Seg.WireLen, r.Seg)
+							return
+						}
+					}
+				}
 			}
 		}
 	}
